@@ -557,9 +557,25 @@ def nonfinite_specs():
     return specs
 
 
+class AssignedGradCase:
+    """gradients put on leaves through the public setter (copied from another leaf / one tensor assigned to two leaves) and
+    then accumulated into: "tensors not reachable from the root of a call are not changed by it" (shared with C11)"""
+    prop = PROP
+
+    def __init__(self, spec):
+        from . import c11
+        self.inner = c11.Scenario("assigned_gradient_own_buffer")
+        self.sig = "assigned_gradient_own_buffer"
+
+    def run(self, env):
+        return self.inner.run(env)
+
+
 def build(spec):
     spec = dict(spec)
     kind = spec.pop("kind")
+    if kind == "assigned":
+        return AssignedGradCase(spec)
     if kind == "nonfinite":
         return NonFiniteResetCase(spec)
     return StepCase(spec) if kind == "step" else HistCase(spec)
@@ -567,7 +583,7 @@ def build(spec):
 
 def main(tier, seed):
     t0 = time.time()
-    specs = enumerate_specs(tier, seed) + nonfinite_specs()
+    specs = enumerate_specs(tier, seed) + nonfinite_specs() + [{"kind": "assigned"}]
     results = runner.run_pool(__name__, specs, tier, seed)
     return runner.finish(
         PROP, tier, seed, results, t0,
